@@ -157,6 +157,7 @@ class KStats:
         self.blocked = 0
         self.fired: List[Tuple[str, int, str]] = []
         self.explicit_close = False
+        self.close_iter: Optional[int] = None     # iteration at which the proxy closed this socket
         self.gone_iter: Optional[int] = None      # iteration at which the proxy learnt (EOF / error) that the peer is gone
 
 
@@ -311,6 +312,7 @@ class KSock(socket.socket):
     def close(self) -> None:
         if self.fileno() != -1:
             self.explicit_close = True
+            self.st.close_iter = self.world.iter
             self.world.explicitly_closed.add(self.kname)
             self.world.activity += 1
         self.n['close'] += 1
